@@ -238,6 +238,11 @@ package runtime
 
 //@ ghostfn chanbuf(word) word
 
+// authoring-time field names (a renamed field is bound by position)
+//@ fields Chan mutex cond data getp len cap sops sends selsends close handoffs
+//@ fields selectOp mutex cond sem
+//@ fields ChanOp C Val Size Send
+
 //@ macro chaninv(p, v, es): p.cap >= 0 && 0 <= p.len && p.len <= p.cap && (p.cap > 0 ==> 0 <= p.getp && p.getp < p.cap && p.data == chanbuf(p)) && (p.cap == 0 ==> p.len == 0 && (p.getp == 1 && p.data != nil ==> valid(p.data, es) && (v != nil ==> disjoint(p.data, es, v, es))))
 //@ macro chanpre(p, v, eltSize): p != nil && eltSize >= 0 && eltSize < 1<<16 && p.cap >= 0 && p.cap < 1<<28 && (p.cap > 0 ==> valid(chanbuf(p), p.cap*eltSize)) && (v != nil ==> valid(v, eltSize) && (p.cap > 0 ==> disjoint(v, eltSize, chanbuf(p), p.cap*eltSize)))
 //@ macro slotaddr(p, i, eltSize): chanbuf(p) + uintptr(i*eltSize)
